@@ -105,12 +105,27 @@ def gen_cases(ctx, exh_len, n_random, max_atoms):
         cases.append(render(ctx.rng, toks))
     for _ in range(n_random):
         cases.append(render(ctx.rng, strings.random_wf_tokens(ctx.rng, ctx.rng.randint(2, max_atoms))))
+    # long flat chains (13-30 operands, mixed operators and spellings, few brackets): sizes beyond what a size-dependent code path may special-case
+    for _ in range(50 if ctx.quick else 600):
+        n = ctx.rng.randint(13, 30)
+        toks = []
+        for i in range(n):
+            if i:
+                op = ctx.rng.choice(("O", "X", "U", "U", None))
+                if op:
+                    toks.append(op)
+            toks.append("A")
+        if ctx.rng.random() < 0.3:
+            i = ctx.rng.randrange(0, len(toks), 1)
+            i -= 0 if toks[i] == "A" else 1
+            toks = toks[:i] + ["(", "A", ctx.rng.choice(("O", "X", "U")), "A", ")"] + toks[i + 1:]
+        cases.append(render(ctx.rng, toks))
     return cases
 
 
 def run(ctx):
     built = prepare(ctx, ["Gen_grammar"], ["Props/C01.vo", "Corr/Parse.vo"])
-    cases = gen_cases(ctx, 5 if ctx.quick else 6, 600 if ctx.quick else 8000, 12 if ctx.quick else 24)
+    cases = gen_cases(ctx, 5 if ctx.quick else 6, 600 if ctx.quick else 8000, 20 if ctx.quick else 24)
     # oracle 3 (first, while the parse cache is still empty): the grouping is a function of the string alone -- also after a caller changed, in
     # place, a tree it was handed earlier (first parse of a string, edit of the returned tree at the root and one level down, second parse)
     n_hist = 0
